@@ -282,17 +282,21 @@ def run(ctx: Any, prog: Program) -> None:
         got.discard('?')
         ctx.check('C17.N3', got == {expect}, ins, n, f'fixup_key arm `{t[:60]}`: expected {"rotate then translate (@ orient + pos)" if expect == "rot+pos" else "rotation only (@ orient)"}, found {sorted(got)}',
                   func='Instance.fixup_key', text=f'fixup_key {frag.strip()}: {expect}')
-    # collapse_one: origin keyvalue and angles
+    # collapse_one: origin keyvalue and angles.  The two locals are found by what they hold: the instance's .orient and its .pos
+    def _local_from_attr(fn_: ast.AST, attrs: tuple, default: str) -> str:
+        c_ = sorted({t.id for a in walk_no_nested(fn_) if isinstance(a, ast.Assign) and isinstance(a.value, ast.Attribute) and a.value.attr in attrs for t in a.targets if isinstance(t, ast.Name)})
+        return c_[0] if len(c_) == 1 else default
+    co_orient, co_origin = _local_from_attr(co, ('orient',), 'orient'), _local_from_attr(co, ('pos',), 'origin')
     got_origin = None
     for n in walk_no_nested(co):
-        if isinstance(n, ast.Assign) and U(n.targets[0]) == "new_ent['origin']":
-            got_origin = shape(n.value, 'orient', 'origin')
+        if isinstance(n, ast.Assign) and isinstance(n.targets[0], ast.Subscript) and isinstance(n.targets[0].slice, ast.Constant) and n.targets[0].slice.value == 'origin' and isinstance(n.targets[0].value, ast.Name):
+            got_origin = shape(n.value, co_orient, co_origin)
     ctx.check('C17.N3', got_origin == 'rot+pos', ins, co, f'collapse_one must set origin = value @ orient + origin; found shape {got_origin}', text='collapse_one origin')
-    ok = any(isinstance(n, ast.AugAssign) and isinstance(n.op, ast.MatMult) and dotted(n.target) == 'angles' and dotted(n.value) == 'orient' for n in walk_no_nested(co))
+    ok = any(isinstance(n, ast.AugAssign) and isinstance(n.op, ast.MatMult) and isinstance(n.target, ast.Name) and dotted(n.value) == co_orient for n in walk_no_nested(co))
     ctx.check('C17.N3', ok, ins, co, 'collapse_one must rotate the entity angles by the instance orientation (angles @= orient)', text='collapse_one angles')
     # brushes are localised with (origin, orient)
     loc_calls = [c for c in walk_no_nested(co) if isinstance(c, ast.Call) and isinstance(c.func, ast.Attribute) and c.func.attr == 'localise']
-    ok = len(loc_calls) >= 2 and all([dotted(a) for a in c.args] == ['origin', 'orient'] for c in loc_calls)
+    ok = len(loc_calls) >= 2 and all([dotted(a) for a in c.args] == [co_origin, co_orient] for c in loc_calls)
     ctx.check('C17.N3', ok, ins, loc_calls[0] if loc_calls else co, 'every copied brush must be localised with (origin, orient)', text='brushes localised')
     # a copied brush moved by anything but localise(): the other mover must shift everything localise() shifts by the origin.
     def _moved_by(fn: ast.AST, param: str) -> Set[str]:
@@ -362,8 +366,12 @@ def run(ctx: Any, prog: Program) -> None:
             ops.setdefault(nm, set()).add('localise(' + ', '.join(dotted(a) or '?' for a in n.args) + ')')
         if isinstance(n, ast.AugAssign) and isinstance(n.target, ast.Attribute):
             ops.setdefault(n.target.attr, set()).add({ast.MatMult: '@=', ast.Add: '+=', ast.Sub: '-='}.get(type(n.op), '?=') + ' ' + (dotted(n.value) or '?'))
-    expect = {'planes': 'localise(origin, orient)', 'uaxis': 'localise(origin, orient)', 'vaxis': 'localise(origin, orient)', 'disp_pos': 'localise(origin, orient)',
-              'offset': '@= orient', 'normal': '@= orient', 'offset_norm': '@= orient'}
+    # the rotation local of Side.localise: assigned from to_matrix(<angles parameter>)
+    sl_or = sorted({t.id for a in walk_no_nested(sl) if isinstance(a, ast.Assign) and isinstance(a.value, ast.Call) and dotted(a.value.func) == 'to_matrix' for t in a.targets if isinstance(t, ast.Name)})
+    sl_orient = sl_or[0] if len(sl_or) == 1 else 'orient'
+    sl_origin = sl.args.args[1].arg if len(sl.args.args) > 1 else 'origin'
+    expect = {'planes': f'localise({sl_origin}, {sl_orient})', 'uaxis': f'localise({sl_origin}, {sl_orient})', 'vaxis': f'localise({sl_origin}, {sl_orient})', 'disp_pos': f'localise({sl_origin}, {sl_orient})',
+              'offset': f'@= {sl_orient}', 'normal': f'@= {sl_orient}', 'offset_norm': f'@= {sl_orient}'}
     for nm, want in expect.items():
         got = ops.get(nm, set())
         kind = 'by rotation only (it is a direction)' if want.startswith('@=') else 'with rotation and translation'
@@ -476,7 +484,11 @@ def n6_substitute(ctx: Any, vm: Any) -> None:
     js = comp[0].args[0]
     src = U(fn)
     # what the joined list contains besides the escaped keys (an appended default pattern)
-    appended = [c.args[0].value for c in ast.walk(fn) if isinstance(c, ast.Call) and isinstance(c.func, ast.Attribute) and c.func.attr == 'append' and dotted(c.func.value) == 'sections' and c.args and isinstance(c.args[0], ast.Constant)]
+    # the list that is joined into the pattern: the local passed to '<sep>'.join(...) inside the f-string
+    join_lists = {dotted(v.value.args[0]) for v in js.values if isinstance(v, ast.FormattedValue) and isinstance(v.value, ast.Call) and isinstance(v.value.func, ast.Attribute) and v.value.func.attr == 'join'
+                  and v.value.args and isinstance(v.value.args[0], ast.Name)}
+    sections_var = sorted(join_lists)[0] if len(join_lists) == 1 else 'sections'
+    appended = [c.args[0].value for c in ast.walk(fn) if isinstance(c, ast.Call) and isinstance(c.func, ast.Attribute) and c.func.attr == 'append' and dotted(c.func.value) == sections_var and c.args and isinstance(c.args[0], ast.Constant)]
     for label, keys in (('empty table', []), ('one variable', ['x']), ('prefix pair', ['ab', 'a'])):
         parts = []
         for v in js.values:
@@ -484,7 +496,7 @@ def n6_substitute(ctx: Any, vm: Any) -> None:
                 parts.append(str(v.value))
             else:
                 inner = v.value                                              # type: ignore[attr-defined]
-                if isinstance(inner, ast.Call) and isinstance(inner.func, ast.Attribute) and inner.func.attr == 'join' and isinstance(inner.func.value, ast.Constant) and dotted(inner.args[0]) == 'sections':
+                if isinstance(inner, ast.Call) and isinstance(inner.func, ast.Attribute) and inner.func.attr == 'join' and isinstance(inner.func.value, ast.Constant) and dotted(inner.args[0]) == sections_var:
                     parts.append(inner.func.value.value.join(list(keys) + appended))
                 else:
                     raise AnalysisError(f'EntityFixup.substitute: pattern piece `{U(inner)}` not recognised')
